@@ -142,6 +142,12 @@ Proof.
     + destruct (nth_error defs i) as [body|]; [| inv H; exact I].
       match type of H with catch ?t ?r = _ => pose proof (catch_clean t r) as X; rewrite H in X; apply X end.
       destruct (s_seq (seval defs n [fn_tag i] []) body VNil st) eqn:E. eapply s_progn_clean; eauto.
+    + destruct (seval defs n bl tg f st) as [o1 st1] eqn:E. pose proof (IH _ _ _ _ _ _ E) as C.
+      destruct o1; try solve [inv H; exact C].
+      destruct (is_nil v); [eapply s_progn_clean; eauto | inv H; reflexivity].
+    + destruct (seval defs n bl tg f1 st) as [o1 st1] eqn:E. pose proof (IH _ _ _ _ _ _ E) as C.
+      destruct o1; try solve [inv H; exact C].
+      destruct (is_nil v); eapply IH; eauto.
 Qed.
 
 (* ---- the refinement relation ------------------------------------------------------------------------ *)
@@ -735,6 +741,35 @@ Proof.
         rewrite orb_false_r in EX. rewrite EX. reflexivity. }
       rewrite EM.
       eapply catch_rel; eauto.
+    + (* Unless *)
+      apply andb_true_iff in Gd. destruct Gd as [G2 G3].
+      destruct (seval defs n bl tg f st) as [o1 st1] eqn:E.
+      assert (NO1 : o1 <> OOF) by (intro; subst; inv HS; congruence).
+      destruct (IHRG f G2 st o1 st1 E NO1) as (r0 & EM & RL & EX).
+      pose proof (rel_inv _ _ RL (CL _ _ _ _ _ _ E)) as RI.
+      rewrite EM. destruct o1.
+      * destruct RI as (vm & -> & Nv & Mk & Pv).
+        rewrite Mk, Pv. destruct (is_nil v); [| inv HS; fin].
+        eapply progn_rel; eauto.
+      * destruct RI as (vm & -> & Nv). inv HS. eexists. split; [reflexivity|]. split; [reflexivity | exact EX].
+      * try subst r0. inv HS. fin.
+      * try subst r0. inv HS. fin.
+      * try subst r0. inv HS. fin.
+      * congruence.
+    + (* If *)
+      apply andb_true_iff in Gd. destruct Gd as [Gd G4]. apply andb_true_iff in Gd. destruct Gd as [G2 G3].
+      destruct (seval defs n bl tg f1 st) as [o1 st1] eqn:E.
+      assert (NO1 : o1 <> OOF) by (intro; subst; inv HS; congruence).
+      destruct (IHRG f1 G2 st o1 st1 E NO1) as (r0 & EM & RL & EX).
+      pose proof (rel_inv _ _ RL (CL _ _ _ _ _ _ E)) as RI.
+      rewrite EM. destruct o1.
+      * destruct RI as (vm & -> & Nv & Mk & Pv).
+        rewrite Mk, Pv. destruct (is_nil v); eapply IHRG; eauto.
+      * destruct RI as (vm & -> & Nv). inv HS. eexists. split; [reflexivity|]. split; [reflexivity | exact EX].
+      * try subst r0. inv HS. fin.
+      * try subst r0. inv HS. fin.
+      * try subst r0. inv HS. fin.
+      * congruence.
 Qed.
 
 (* whole programs: fresh top-level scope on both sides *)
